@@ -47,6 +47,8 @@ def run(tier, seed):
     if cluster:
         cluster.judge(rep, PID, tier, 0, args={"scenarios": True, "seed": 0}, what="directed schedules, in situ")
         cluster.judge(rep, PID, tier, seed, what="random adversarial schedules, in situ")
+        from props import specreplay
+        specreplay.judge_two_heights(rep, PID, tier, seed)
     # the real two-goroutine runtime: the height the filter classifies by is the height of the installed term
     from props import runtime
     rep.assumptions += runtime.ASSUME
